@@ -63,19 +63,19 @@ CLAIMED = {
     "C16": (JX, "symbolic execution of the jaxprs of autoregressive_step / autoregressive_map with the model as an uninterpreted function; z3 (QF_UFLRA)",
             "For each enumerated (signature, n, past) z3 proves the rollout equals n explicit applications with the sliding-window update for EVERY model "
             "(uninterpreted function of the whole input) and all inputs.",
-            "n<=3 (5), past<=3 (4); the model reads its input by type (canonical order); replay uses a fixed generic nonlinear model.", "4/C16"),
+            "n<=3 (6), past<=3 (5); the model reads its input by type (canonical order); replay uses a fixed generic nonlinear model.", "4/C16"),
     "C17": (JX, "symbolic execution of the jaxpr of get_batches with a symbolic permutation (boolean permutation-matrix variables); z3 per (L,B,devices)",
             "For each enumerated (L, B, device count, number of co-batched multi-images) z3 proves for EVERY permutation that slot (i,r) of every multi-image "
             "and type holds sample pi(iB+r), floor(L/B) batches, device axis = reshape; identity order without a key.",
-            "L<=6 (8); random.permutation stubbed by its contract (returns a permutation); jax's PRNG not analysed.", "4/C17"),
+            "L<=6 (10); random.permutation: the real call is evaluated eagerly first (must be valid and yield a permutation of range(L)), then replaced by a symbolic permutation; jax's PRNG not analysed.", "4/C17"),
     "C18": (JX, "symbolic execution of the jaxprs of the three losses vs. their written-out definitions; z3 (QF_NRA); lemma-based non-negativity",
             "For each enumerated type set / insertion-order pair / jit history z3 proves each loss equals its definition for ALL predictions and targets, "
             "is 0 on equal arguments, >= 0, invariant under every g, and the per-step losses sum to the total.",
             "Reals; batch<=2, steps<=2(3), tiny images; reduce='max' decided under a strict-maximum assumption.", "4/C18"),
     "C19": (XH, "CrossHair (per-path z3) on the real TrainLoss/ValLoss/EpochStop.stop: bounded symbolic histories vs. a reference state machine + one inductive step from an arbitrary state",
-            "CrossHair confirms over all paths that for symbolic loss histories (len<=4), patience and min_delta the real conditions stop at exactly the "
+            "CrossHair confirms over all paths that for symbolic loss histories (len<=3 quick, <=5 thorough), patience and min_delta the real conditions stop at exactly the "
             "specified epoch and hand back the best model, for float and non-float scalar representations; the inductive step covers any history length.",
-            "Bounds: len<=4, patience<=3 (5), losses in [0,100]; non-float scalars modelled by a wrapper + float() stub, validated with genuine np.float32/jax scalars.", "4/C19"),
+            "Bounds: len<=3 (5), patience<=3 (5), losses in [0,100]; non-float scalars modelled by a wrapper + float() stub, validated with genuine np.float32/jax scalars.", "4/C19"),
     "C08": (JX, "symbolic execution of the jaxprs of the real norm / nonlinearity / pooling blocks with symbolic parameters; exact argmax encoding (ITE) under tie-freeness; eigh as a contract stub; z3 (QF_UFNRA)",
             "For each enumerated block configuration and every g z3 proves block(g.x) = g.block(x) for ALL inputs and ALL learnable parameter values "
             "(and patch-multiple shifts for pooling); max-pool under the statement's unique-maximiser precondition.",
